@@ -17,7 +17,7 @@ def run_bringup(ncp_v, path_kind="serial", second_reset=False, fault=None):
     """fault: None or (direction 'h2n'|'n2h', index of the frame on that direction, 'drop'|'corrupt'|'dup')"""
     path = "/dev/ttyFAKE" if path_kind == "serial" else "socket://sim:1234"
     late = path_kind == "socket-late"
-    s = fullstack.Stack(ncp_version=ncp_v, path=path, ncp_up=(path_kind != "socket-late"))
+    s = fullstack.Stack(ncp_version=ncp_v, path=path, ncp_up=(path_kind != "socket-late"), ncp_timer=True)
     raw_seen = []
     orig_ezsp = s.ncp.ezsp
 
@@ -26,6 +26,7 @@ def run_bringup(ncp_v, path_kind="serial", second_reset=False, fault=None):
         return orig_ezsp(data)
     s.ncp.ezsp = spy
     counters = {"h2n": 0, "n2h": 0}
+    out = {"phases": []}
     if fault is not None:
         d, idx, kind = fault
 
@@ -33,6 +34,7 @@ def run_bringup(ncp_v, path_kind="serial", second_reset=False, fault=None):
             i = counters["h2n"]
             counters["h2n"] += 1
             if d == "h2n" and i == idx:
+                out["fault_hit"] = "RST" if bytes(data).lstrip(b"\x1a").startswith(b"\xc0") else "other"
                 if kind == "drop":
                     return None
                 if kind == "corrupt":
@@ -47,6 +49,7 @@ def run_bringup(ncp_v, path_kind="serial", second_reset=False, fault=None):
             i = counters["n2h"]
             counters["n2h"] += 1
             if d == "n2h" and i == idx:
+                out["fault_hit"] = "RSTACK" if bytes(fr)[:1] == b"\xc1" else "other"
                 if kind == "drop":
                     return []
                 if kind == "corrupt":
@@ -58,8 +61,6 @@ def run_bringup(ncp_v, path_kind="serial", second_reset=False, fault=None):
             return [fr]
         s.line.fault_h2n = h2n
         s.line.fault_n2h = n2h
-    out = {"phases": []}
-
     async def bring(tag):
         ph = {"tag": tag}
         mark = len(raw_seen)
@@ -147,6 +148,13 @@ class Check(PropertyCheck):
             for path in ("serial", "socket-seen", "socket-late", "socket-absent"):
                 for second in (False, True):
                     cases.append({"v": v, "path": path, "second": second, "fault": None})
+        # every single fault on the first frames of each direction (the reset handshake and the version exchange)
+        for v in ((4, 13) if tier == "quick" else (4, 7, 8, 13, 14, 15)):
+            for path in ("serial", "socket-seen", "socket-late", "socket-absent"):
+                for d in ("h2n", "n2h"):
+                    for idx in range(0, 4 if tier == "quick" else 8):
+                        for kind in ("drop", "corrupt", "dup"):
+                            cases.append({"v": v, "path": path, "second": False, "fault": (d, idx, kind)})
         nf = 200 if tier == "quick" else 2500
         for _ in range(nf):
             v = rng.choice(versions)
@@ -211,11 +219,20 @@ class Check(PropertyCheck):
         if not obs.get("finished"):
             return "bring-up neither completed nor raised (no timer left: hang)"
         want_handler = v if v in SUPPORTED else LATEST
+        # a single lost / damaged / duplicated frame is repaired by ASH (NAK, retransmission, duplicate suppression) and
+        # bring-up completes; only the reset handshake itself has no retry: a lost or damaged RST / RSTACK may time out
+        recoverable = case["fault"] is not None and (case["fault"][2] == "dup" or obs.get("fault_hit") not in ("RST", "RSTACK"))
         for ph in obs["phases"]:
             if ph["done"] != "ok":
                 if case["fault"] is None and case["path"] != "socket-late":
                     return f"bring-up of an NCP v{v} over a fault-free line failed: {ph['done']}"
+                if recoverable:
+                    return (f"bring-up of an NCP v{v} ({case['path']}) failed with {ph['done']} after a single {case['fault'][2]} fault "
+                            f"on a {obs.get('fault_hit', 'no')} frame ({case['fault'][0]} #{case['fault'][1]})")
                 continue
+            if recoverable and ((ph.get("later") or "").startswith("raise") or ph.get("config") != "ok"):
+                return (f"NCP v{v} ({case['path']}): after a single {case['fault'][2]} fault the first command / the default configuration "
+                        f"failed: later={ph.get('later')!r} config={ph.get('config')!r}")
             vf = [bytes.fromhex(x) for x in ph["version_frames"]]
             # duplicates on the line may make the NCP see a query twice: look at distinct consecutive frames
             dist = [f for i, f in enumerate(vf) if i == 0 or f != vf[i - 1]]
